@@ -25,6 +25,7 @@ func propC03() Property {
 			{ID: "C03-R5", Desc: "gap-fill field binding and placement", Min: 6, Run: c03R5},
 			{ID: "C03-R6", Desc: "the end-of-body mark moves only over body fields", Min: 3, Run: c03R6},
 			{ID: "C03-R7", Desc: "the whole reply to a ResendRequest is sent under the resend lock (= C02-R5)", Min: 3, Run: c02R5},
+			{ID: "C03-R9", Desc: "the start-of-body mark stops at the first body field", Min: 2, Run: c03R9},
 			{ID: "C03-R8", Desc: "every store iterates the whole requested range; file index appended at its end (= C16-R3, C16-R13, C17-R2)", Min: 4, Run: func(c *Ctx) { c16R3(c); c16R13(c); c17R2(c) }},
 		},
 	}
